@@ -3,6 +3,9 @@
 Exit 0 iff every stable_pass test passes."""
 import json, subprocess, sys, collections
 B = json.load(open("/root/.vp/BASELINE.json"))
+# optional: --repo DIR runs the same command against a scratch worktree
+if len(sys.argv) > 2 and sys.argv[1] == "--repo":
+    B["cmd"] = B["cmd"].replace("/repo/", sys.argv[2].rstrip("/") + "/")
 p = subprocess.run(["bash", "-c", B["cmd"]], stdout=subprocess.PIPE, stderr=subprocess.DEVNULL, text=True, errors="replace")
 res = {}
 for line in p.stdout.splitlines():
